@@ -422,6 +422,12 @@ class SccContext:
     elif control_code is SccControlCode.CR:
       # Roll the displayed caption up one row (Roll-Up)
 
+      # attributes remain in effect until the end of the row: text received on the new
+      # base row without a PAC is white, non-italic and non-underlined
+      self.current_color = None
+      self.current_font_style = None
+      self.current_text_decoration = None
+
       if self.has_active_caption():
         if self.active_caption.get_caption_style() is not SccCaptionStyle.RollUp:
           LOGGER.warning("Cannot roll-up active %s-styled caption, erase it instead.", self.active_caption.get_caption_style().name)
